@@ -9,7 +9,7 @@ from . import common as cm
 
 RS = [1, 2, 3, 8]
 CS = [1, 2, 3, 4, 5, 6, 12]
-CONC = [(0.001, 10, 10), (0.01, 10, 20), (0.3, 30, 30), (1, 100, 100), (5, 10, 500), (5, 10, 10), (1, 123, 123), (0.2, 1, 1), (0.2, 1, 10), (1, 10, 12)]
+CONC = [(0.001, 10, 10), (0.01, 10, 20), (0.3, 30, 30), (1, 100, 100), (5, 10, 500), (5, 10, 10), (1, 123, 123), (0.2, 1, 1), (0.2, 1, 10), (1, 10, 12), (1, 1e10, 1e10), (0.5, 2e8, 1e9)]
 VMAX = [100, 500, 1000, "ramp"]
 MINT = [1, 2.5, 10, 10.25, 20, 50]
 
@@ -23,8 +23,9 @@ def vmax_of(v, C):
 class Harness(cm.BaseB):
     id = "C14"
     rule = (
-        "complete grid R {1,2,3,8} x C {1,2,3,4,6,12} x mode {log,linear} x 7 (xmin,xmax,stock) triples x vmax {100, "
-        "1000, per-column ramp} x min_transfer {1,10,20,50} = 4032 constructor calls (thorough adds R {4,16}, C {8,24}); "
+        "complete grid R {1,2,3,8} x C {1,2,3,4,5,6,12} x mode {log,linear} x 12 (xmin,xmax,stock) triples (ranges up to "
+        "ten orders of magnitude) x vmax {100, 500, 1000, per-column ramp} x min_transfer {1,2.5,10,10.25,20,50} = 16128 "
+        "constructor calls (thorough adds R {4,16}, C {8,24}); concentrations compared at 1e-9 relative; "
         "every returned plan is re-derived from its instructions in exact arithmetic and executed with to_worklist on "
         "EvoWorklist and FluentWorklist x worklist max_volume {950,200} x destination plate yes/no x mix_repeat {0,2}, "
         "with stock/diluent troughs that have fewer or more virtual rows than R and use a non-zero column "
@@ -109,7 +110,7 @@ class Harness(cm.BaseB):
             for c in range(C):
                 for r in range(R):
                     e = float(x[c][r])
-                    if not abs(px[r, c] - e) <= 1e-9 * max(1.0, abs(e)):
+                    if not abs(px[r, c] - e) <= 1e-9 * abs(e):
                         V.append(("C14/concentrations", f"{what}: x[{r},{c}] = {px[r, c]!r}, instructions imply {e!r}"))
                         break
         if Fraction(float(plan.v_stock)) != v_stock:
@@ -162,7 +163,7 @@ class Harness(cm.BaseB):
                 for r in range(R):
                     got = (float(comp[r, c]) if comp is not None else 0.0) * stock
                     e = float(x[c][r])
-                    if not abs(got - e) <= 1e-9 * max(1.0, abs(e)):
+                    if not abs(got - e) <= 1e-9 * abs(e):
                         V.append(("C14/executed-concentration", f"{tag}: well ({r},{c}) holds {got!r}, plan reports {e!r}"))
                         break
             used_stock = 1e6 - float(st.volumes[0, 1])
@@ -178,7 +179,7 @@ class Harness(cm.BaseB):
                 for c in range(C):
                     for r in range(R):
                         got = (float(dc[r, c]) if dc is not None else 0.0) * stock
-                        if dest.volumes[r, c] != 1.0 or not abs(got - float(x[c][r])) <= 1e-9 * max(1.0, float(x[c][r])):
+                        if dest.volumes[r, c] != 1.0 or not abs(got - float(x[c][r])) <= 1e-9 * float(x[c][r]):
                             V.append(("C14/executed-concentration", f"{tag}: destination well ({r},{c}) holds {dest.volumes[r, c]} uL at {got!r}"))
                             break
         return V
